@@ -43,7 +43,7 @@ mk MC_Nbs_t_u22n3   3 2 2 '{0, 1, 2}' '{1, 2}'    '{8, 20}' "$ALL" FALSE 1 TRUE 
 mk MC_Nbs_t_u22n4   4 2 2 '{0, 1, 2}' '{1, 6}'    '{8, 20}' "$ALL" FALSE 1 TRUE  FALSE
 mk MC_Nbs_t_u22n4k2 4 2 2 '{0, 1}'    '{1, 2, 6}' '{4}'     "$ALL" FALSE 2 FALSE FALSE
 mk MC_Nbs_t_u22n4k2d 4 2 2 '{0, 1}'   '{1, 6}'    '{4}'     "$ALL" FALSE 2 TRUE  FALSE
-mk MC_Nbs_t_u23n4   4 2 3 '{0, 1}'    '{1, 2, 6}' '{12}'    '{"both"}' FALSE 1 TRUE  FALSE
+mk MC_Nbs_t_u23n4   4 2 3 '{0, 1}'    '{1, 6}'    '{8, 12}' "$ALL" FALSE 1 TRUE  FALSE
 mk MC_Nbs_t_u23n3   3 2 3 '{0, 1}'    '{1, 3}'    '{12}'    "$ALL" FALSE 1 TRUE  FALSE
 mk MC_Nbs_t_u33n3   3 3 3 '{0, 1}'    '{1, 2}'    '{12}'    '{"both"}' FALSE 1 TRUE  FALSE
 mk MC_Nbs_t_p22n4   4 2 2 '{0, 1, 2}' '{1, 6}'    '{8, 20}' "$ALL" TRUE  2 TRUE  FALSE
